@@ -90,7 +90,11 @@ func (pc *PubkeyCache) ValidatorIndex(pubkey BLSPubkey) (index ValidatorIndex, o
 func (pc *PubkeyCache) unsafeValidatorIndex(pubkey BLSPubkey) (index ValidatorIndex, ok bool) {
 	index, ok = pc.pub2idx[pubkey]
 	if !ok && pc.parent != nil {
-		return pc.parent.ValidatorIndex(pubkey)
+		index, ok = pc.parent.ValidatorIndex(pubkey)
+		if ok && index >= pc.trustedParentCount {
+			// only the history before the fork point is shared with the parent
+			return 0, false
+		}
 	}
 	return index, ok
 }
